@@ -13,13 +13,16 @@ execution considered (nodes crashed earlier stay crashed).  `TimedRel q r` relat
 reference state `r`:
 
 * the same processes with the same state and local outbox; the same crashed nodes; the same link controls;
-* the in-flight messages of `r` are, as a multiset, the live queued message copies of `q` addressed to nodes
-  that still have a handler, each with the options the checker would give it (`noFail` inside a node, no faults
-  across nodes);
-* the pending timers of `r` are the live queued timer events of `q` on live nodes in creation (id) order, each
+* the in-flight messages of `r` are, as a multiset **of (message, source, destination) triples**, the live queued
+  message copies of `q` addressed to nodes that still have a handler, and every flight of `r` carries delivery
+  options that permit no fault (`Opts.noFault`: `noFail`, or `faults false 0 false`) — a run that started quiet
+  gives each flight the options `zeroOpts`, the snapshot `ModelChecker::new` gives every flight `noFail`;
+* the pending timers of `r` are the live queued timer events of `q` (all of them are on nodes with handler), each
   pending under its name in its process's timer map, and — this is what makes the reduction sound — every
-  queued timer event `i` has a *set clock* `c_i` with `time_i = c_i + delay_i`, `c_i ≤ clock`, and set clocks
-  are non-decreasing in creation order.
+  queued timer event `i` has a *set clock* `c_i` with `time_i = c_i + delay_i`, `c_i ≤ clock`; along the list of
+  pending timers the set clocks are non-decreasing, the event ids are pairwise distinct, and of two timers with the
+  same firing time the earlier one in the list has the smaller id.  Creation order (a run that started quiet) and
+  `(time, id)` order with one common set clock (the snapshot) are both instances.
 
 The relation is the conjunction of five groups of clauses (`NetRel`, `TProcRel`, `QueueOk`, `TimerRel` and the
 `flights` clause); they are separate structures only so that each proof touches the clauses it changes.
@@ -35,10 +38,24 @@ def liftHandler (h : Handler σ) : SHandler σ T := fun p st i _ _ => ((h p st i
 def zeroOpts (loc : List (Nat × Nat)) (maxDelay : Nat) (src dst : Nat) : Opts :=
   if amGet? src loc = amGet? dst loc then .noFail maxDelay else .faults false 0 false
 
-/-- the reference flight of a queued message copy -/
-def flightOfQ (loc : List (Nat × Nat)) (maxDelay : Nat) : QData → Option Flight
-  | .msg _ m src _ dst _ => some ⟨m, src, dst, zeroOpts loc maxDelay src dst⟩
+/-- delivery options that permit no fault (the same function as `Opts.inert` of `R5Defs`, which is defined
+    downstream of R4) -/
+def Opts.noFault : Opts → Bool
+  | .noFail _ => true
+  | .faults false 0 false => true
+  | _ => false
+
+/-- what the reduced semantics looks at in a flight (the same function as `Flight.core` of `R5Defs`) -/
+def Flight.key (f : Flight) : Msg × Nat × Nat := (f.m, f.src, f.dst)
+
+/-- the (message, source, destination) triple of a queued message copy -/
+def keyOfQ : QData → Option (Msg × Nat × Nat)
+  | .msg _ m src _ dst _ => some (m, src, dst)
   | .timer _ _ => none
+
+theorem zeroOpts_noFault (loc : List (Nat × Nat)) (maxDelay : Nat) (src dst : Nat) :
+    (zeroOpts loc maxDelay src dst).noFault = true := by
+  unfold zeroOpts; split <;> rfl
 
 /-- live queued events whose destination node still has a handler -/
 def Sim.deliverable (q : Sim σ T) : List (QEv T) := q.live.filter (fun e => q.handlers.contains e.dst)
@@ -55,6 +72,9 @@ structure TimerGhost (T : Type) where
 /-- the pending timer a ghost stands for -/
 def TimerGhost.toPTimer (g : TimerGhost T) : PTimer := ⟨g.proc, g.name, g.delay⟩
 
+/-- the time at which the timer event of a ghost fires -/
+def TimerGhost.fire (g : TimerGhost T) : T := TimeOps.add g.setClock (TimeOps.ofBits g.delay)
+
 /-- network part: rates are zero on both sides, link controls and locations agree, crashed = no handler -/
 structure NetRel (bits : T → Nat) (q : Sim σ T) (r : RState σ) : Prop where
   ratesZero : q.net.dropRate = TimeOps.zero ∧ q.net.duplRate = TimeOps.zero ∧ q.net.corruptRate = TimeOps.zero
@@ -69,6 +89,11 @@ structure NetRel (bits : T → Nat) (q : Sim σ T) (r : RState σ) : Prop where
   crashed : ∀ n, n ∈ r.crashedNodes ↔ (amHas n q.nodes = true ∧ ¬ n ∈ q.handlers)
   /-- processes are located on existing nodes -/
   locNodes : ∀ p n, amGet? p q.net.procLoc = some n → amHas n q.nodes = true
+  /-- a node has a handler iff it exists and is not marked crashed (there is no `crash_node` / `recover_node` call in
+      the executions considered); no reference state involved -/
+  handlersOk : ∀ n, n ∈ q.handlers ↔ ∃ nd, amGet? n q.nodes = some nd ∧ nd.crashed = false
+  /-- the node table is a sorted map (`BTreeMap`); no reference state involved -/
+  nodesSorted : KSorted q.nodes
 
 /-- processes: same state and outbox -/
 structure TProcRel (q : Sim σ T) (r : RState σ) : Prop where
@@ -88,11 +113,15 @@ structure QueueOk (q : Sim σ T) : Prop where
   msgLoc : ∀ e ∈ q.live, ∀ mid m src sn dst dn, e.data = .msg mid m src sn dst dn →
     e.dst = dn ∧ amGet? dst q.net.procLoc = some dn ∧ amGet? src q.net.procLoc = some sn
 
-/-- pending timers = deliverable timer events in creation order, with their ghosts -/
+/-- pending timers = live timer events (all deliverable), with their ghosts -/
 structure TimerRel (bits : T → Nat) (q : Sim σ T) (r : RState σ) (ghosts : List (TimerGhost T)) : Prop where
   timers : r.timers = ghosts.map TimerGhost.toPTimer
-  ghostsSorted : (ghosts.map (·.id)).Pairwise (· < ·)
-  ghostsCover : ∀ e ∈ q.deliverable, ∀ p name, e.data = .timer p name → ∃ g ∈ ghosts, g.id = e.id
+  /-- the event ids of the ghosts are pairwise distinct -/
+  ghostsNodup : (ghosts.map (·.id)).Nodup
+  /-- tie rule: of two ghosts with the same firing time the earlier one in the list has the smaller event id -/
+  ghostsTie : ghosts.Pairwise (fun a b => a.fire = b.fire → a.id < b.id)
+  /-- every live timer event has a ghost (hence, by `ghostsLive`, is addressed to a node with handler) -/
+  ghostsCover : ∀ e ∈ q.live, ∀ p name, e.data = .timer p name → ∃ g ∈ ghosts, g.id = e.id
   ghostsLive : ∀ g ∈ ghosts, ∃ e ∈ q.deliverable, e.id = g.id ∧ e.data = .timer g.proc g.name ∧
     e.time = TimeOps.add g.setClock (TimeOps.ofBits g.delay)
   ghostClock : ∀ g ∈ ghosts, TimeOps.le g.setClock q.clock = true
@@ -104,9 +133,10 @@ structure TimerRel (bits : T → Nat) (q : Sim σ T) (r : RState σ) (ghosts : L
     amGet? name e.pending = some id ↔ ∃ ev ∈ q.live, ev.id = id ∧ ev.data = .timer p name
   uniq : r.timersUnique
 
-/-- in-flight messages, as a multiset -/
-def FlightRel (q : Sim σ T) (r : RState σ) : Prop :=
-  r.flights.Perm (q.deliverable.filterMap fun e => flightOfQ q.net.procLoc r.net.maxDelay e.data)
+/-- in-flight messages, as a multiset of (message, source, destination) triples; their options permit no fault -/
+structure FlightRel (q : Sim σ T) (r : RState σ) : Prop where
+  perm : (r.flights.map Flight.key).Perm (q.deliverable.filterMap fun e => keyOfQ e.data)
+  inert : ∀ f ∈ r.flights, f.o.noFault = true
 
 structure TimedRel (bits : T → Nat) (q : Sim σ T) (r : RState σ) (ghosts : List (TimerGhost T)) : Prop where
   net : NetRel bits q r
